@@ -6,8 +6,9 @@
    A history is any sequence ks of top-level calls in one interpreter, over any universe U of generators and
    any table T of generator bodies (nested calls, recursion, hand-on of a nested call's module);
    run_hist ... = Ok (st, ms) says that no call of the history raised. *)
-Require Import Hdl21.Base.PyInt Hdl21.Model.ParamName Hdl21.Model.GenCache Hdl21.Model.GenUniverse
-               Hdl21.Proofs.ParamNameProofs Hdl21.Proofs.GenCacheProofs Hdl21.Proofs.NamingProofs.
+Require Import Hdl21.Base.PyInt Hdl21.Model.ParamName Hdl21.Model.GenCache Hdl21.Model.C09GenFail Hdl21.Model.GenUniverse
+               Hdl21.Proofs.ParamNameProofs Hdl21.Proofs.GenCacheProofs Hdl21.Proofs.NamingProofs
+               Hdl21.Proofs.C09FailProofs Hdl21.Proofs.C09FailOnce Hdl21.Proofs.C09UnnameableProofs.
 From Coq Require Import String Ascii.
 Open Scope string_scope.
 
@@ -389,3 +390,239 @@ Example C09_ex_scalar_history :
                  List.length (runs st) = 2%nat
   end.
 Proof. vm_compute. split; reflexivity. Qed.
+
+(* =====================================================================================================
+   STRENGTHENING ROUND: histories in which calls are REFUSED and the history goes on (Model/C09GenFail.v).
+   Theorems 1-7 above speak about histories in which no call raised (`run_hist ... = Ok ...`).  A caller that catches
+   the exception and calls again - a notebook cell run twice, a try / except fallback - makes histories they are silent
+   about.  `hist_f fuel ks = (st, os)` is TOTAL: os holds the outcome of every call, `Ret m` or `Raise e`, and st is
+   the cache afterwards.  What can raise: a circular dependency, NAMING the result after the body ran (`suffix k = None`:
+   `_unique_name` raises for parameters that have no JSON form - functions, lambdas, objects of user types, Instances),
+   a refused nested call.  Policy StoreNamed is the code (the result enters the cache after it was named); StoreFirst
+   is what the seeded changes C09r2-A / C08r2-A did, refuted in 31.
+   ===================================================================================================== *)
+Section Failing.
+Variable U : list gen.
+Variable T : list entry.
+Variable suffix : key -> option string.      (* any rendering of _unique_name; None = it raises *)
+Notation histF := (hist_f key_eqb (prog_of U T) (gen_name_of U) (has_params_of U) suffix StoreNamed).
+Notation OrigF := (Origin (prog_of U T)).
+Notation cnameF := (created_name (prog_of U T) (gen_name_of U) (has_params_of U) (sfx suffix)).
+Notation BadF := (Bad (prog_of U T) (has_params_of U) suffix).
+Notation nrunsF := (nruns key_eqb).
+
+(* 22. every call, refused or not, leaves `pending` and `stack` as it found them *)
+Theorem C09_fail_cache_clean fuel ks st os : histF fuel ks = (st, os) -> pending st = [] /\ stack st = [].
+Proof. exact (clean_after key key_eqb key_eqb_eq _ _ _ _ fuel ks st os). Qed.
+
+(* 23. memoisation across refusals: two calls with equal parameters that are answered, are answered with the identical
+       module - whatever was refused in between *)
+Theorem C09_fail_memo_same fuel ks st os i j k mi mj : histF fuel ks = (st, os) ->
+  nth_error ks i = Some k -> nth_error ks j = Some k ->
+  nth_error os i = Some (Ret mi) -> nth_error os j = Some (Ret mj) -> mi = mj.
+Proof. exact (memo_sameF key key_eqb key_eqb_eq _ _ _ _ fuel ks st os i j k mi mj). Qed.
+
+(* 24. ... and a call that was answered once is answered - not refused - at every later repetition, with that module *)
+Theorem C09_fail_accepted_stays fuel ks st os i j k m : histF fuel ks = (st, os) -> (0 < fuel)%nat -> (i <= j)%nat ->
+  nth_error ks i = Some k -> nth_error ks j = Some k -> nth_error os i = Some (Ret m) -> nth_error os j = Some (Ret m).
+Proof. exact (accepted_stays key key_eqb key_eqb_eq _ _ _ _ fuel ks st os i j k m). Qed.
+
+(* 25. every module a history hands out was created by the call at the end of the hand-on chain, carries the name that
+       call gave it, and naming that call did NOT fail: no module of a parametric generator is handed out without its
+       parameter suffix, however many calls failed before *)
+Theorem C09_fail_name_of_returned fuel ks st os i k m : histF fuel ks = (st, os) ->
+  nth_error ks i = Some k -> nth_error os i = Some (Ret m) ->
+  exists gm, nth_error (heap st) m = Some gm /\ OrigF k (m_creator gm) /\ m_name gm = cnameF (m_creator gm) /\
+             name_ok (has_params_of U) suffix (m_creator gm) = true.
+Proof. exact (returned_moduleF key key_eqb key_eqb_eq _ _ _ _ fuel ks st os i k m). Qed.
+
+(* 26. the name of the module returned for a call is the same in every history, refusals included *)
+Theorem C09_fail_name_history_free f1 f2 ks1 ks2 st1 st2 os1 os2 i j k m1 m2 g1 g2 :
+  histF f1 ks1 = (st1, os1) -> histF f2 ks2 = (st2, os2) ->
+  nth_error ks1 i = Some k -> nth_error ks2 j = Some k ->
+  nth_error os1 i = Some (Ret m1) -> nth_error os2 j = Some (Ret m2) ->
+  nth_error (heap st1) m1 = Some g1 -> nth_error (heap st2) m2 = Some g2 -> m_name g1 = m_name g2.
+Proof. exact (name_history_freeF key key_eqb key_eqb_eq _ _ _ _ f1 f2 ks1 ks2 st1 st2 os1 os2 i j k m1 m2 g1 g2). Qed.
+
+(* 27. same module <-> same creating call, refusals included *)
+Theorem C09_fail_same_module_iff fuel ks st os i j ki kj mi mj ci cj : histF fuel ks = (st, os) ->
+  nth_error ks i = Some ki -> nth_error ks j = Some kj ->
+  nth_error os i = Some (Ret mi) -> nth_error os j = Some (Ret mj) ->
+  OrigF ki ci -> OrigF kj cj -> (mi = mj <-> ci = cj).
+Proof. exact (same_module_iffF key key_eqb key_eqb_eq _ _ _ _ fuel ks st os i j ki kj mi mj ci cj). Qed.
+
+(* 28. REFUSED, AND REFUSED AGAIN.  A call that is refused once (for any reason but the model's own recursion bound) is
+       refused at every position of every history: in the same interpreter or another one, before or after any other
+       calls.  Whether a call is refused is a property of the call (Bad: its call graph holds a call whose result cannot
+       be named, a hand-on of nothing, or a cycle) - not of the history. *)
+Theorem C09_fail_refused_is_bad fuel ks st os i k e : histF fuel ks = (st, os) -> nth_error ks i = Some k ->
+  nth_error os i = Some (Raise e) -> e <> EFuel -> BadF k.
+Proof. exact (refused_is_bad key key_eqb key_eqb_eq _ _ _ _ fuel ks st os i k e). Qed.
+
+Theorem C09_fail_refusal_history_free f1 f2 ks1 ks2 st1 st2 os1 os2 i j k e :
+  histF f1 ks1 = (st1, os1) -> histF f2 ks2 = (st2, os2) ->
+  nth_error ks1 i = Some k -> nth_error os1 i = Some (Raise e) -> e <> EFuel ->
+  nth_error ks2 j = Some k -> exists e', nth_error os2 j = Some (Raise e').
+Proof. exact (refusal_history_free key key_eqb key_eqb_eq _ _ _ _ f1 f2 ks1 ks2 st1 st2 os1 os2 i j k e). Qed.
+
+(* ... and nothing is ever stored for it *)
+Theorem C09_fail_bad_never_cached fuel ks st os k : histF fuel ks = (st, os) -> BadF k -> ~ In k (map fst (done st)).
+Proof.
+  intros H B. destruct (histf_inv key key_eqb key_eqb_eq _ _ _ _ _ _ _ _ H) as [I _].
+  exact (bad_not_done key key_eqb _ _ _ _ st k I B).
+Qed.
+
+(* 29. the body runs once: in a history that did not hit the model's recursion bound, every call in the cache - every
+       answered call, every nested call that completed - executed its body exactly once, however often it was repeated
+       and whatever was refused in between; a call that executed and is not in the cache is Bad.  And (no hypothesis) a
+       cached call is never executed again by any continuation of the history. *)
+Theorem C09_fail_body_once fuel ks st os : histF fuel ks = (st, os) -> ~ In (Raise EFuel) os ->
+  (forall k, In k (map fst (done st)) -> nrunsF k st = 1%nat) /\
+  (forall k, In k (runs st) -> In k (map fst (done st)) \/ BadF k).
+Proof. exact (body_once key key_eqb key_eqb_eq _ _ _ _ fuel ks st os). Qed.
+
+Theorem C09_fail_answered_ran_once fuel ks st os i k m : histF fuel ks = (st, os) -> ~ In (Raise EFuel) os ->
+  nth_error ks i = Some k -> nth_error os i = Some (Ret m) -> nrunsF k st = 1%nat.
+Proof. exact (accepted_ran_once key key_eqb key_eqb_eq _ _ _ _ fuel ks st os i k m). Qed.
+
+Theorem C09_fail_cached_not_rerun fuel ks1 ks2 k : In k (map fst (done (fst (histF fuel ks1)))) ->
+  nrunsF k (fst (histF fuel (ks1 ++ ks2))) = nrunsF k (fst (histF fuel ks1)).
+Proof. exact (cached_not_rerun key key_eqb key_eqb_eq _ _ _ _ fuel ks1 ks2 k). Qed.
+
+(* 30. the failing-call model extends the model of theorems 1-7: a call it answers is answered by Model/GenCache.v with
+       the same module and the same state *)
+Theorem C09_fail_model_extends fuel st k st' m :
+  run_f key_eqb (prog_of U T) (gen_name_of U) (has_params_of U) suffix StoreNamed fuel st k = (st', Ret m) ->
+  run key_eqb (prog_of U T) (gen_name_of U) (has_params_of U) (sfx suffix) fuel st k = Ok (st', m).
+Proof. exact (run_f_refines key key_eqb _ _ _ _ fuel st k st' m). Qed.
+
+End Failing.
+Print Assumptions C09_fail_cache_clean.
+Print Assumptions C09_fail_memo_same.
+Print Assumptions C09_fail_accepted_stays.
+Print Assumptions C09_fail_name_of_returned.
+Print Assumptions C09_fail_name_history_free.
+Print Assumptions C09_fail_same_module_iff.
+Print Assumptions C09_fail_refused_is_bad.
+Print Assumptions C09_fail_refusal_history_free.
+Print Assumptions C09_fail_bad_never_cached.
+Print Assumptions C09_fail_body_once.
+Print Assumptions C09_fail_answered_ran_once.
+Print Assumptions C09_fail_cached_not_rerun.
+Print Assumptions C09_fail_model_extends.
+
+(* ---------- parameter values that cannot be named (functions, lambdas, objects of user types, Instances: VObj) ---------- *)
+
+(* 32. a name exists only for a parameter set without such an object, and is then the name of theorems 8, 11, 19; a set
+       holding one anywhere (nested classes included) is refused by _unique_name - no fallback to repr(obj), which would
+       put a memory address into the name *)
+Theorem C09_name_needs_json_form fs vs u : unique_name_f fs vs = Ok u -> existsb has_obj vs = false /\ unique_name fs vs = Ok u.
+Proof. exact (unique_name_f_ok fs vs u). Qed.
+Theorem C09_unnameable_refused fs vs : existsb has_obj vs = true -> unique_name_f fs vs = Error EName.
+Proof. exact (unique_name_f_refuses fs vs). Qed.
+Print Assumptions C09_name_needs_json_form.
+Print Assumptions C09_unnameable_refused.
+
+(* 33. a call of a generator that builds its own module, with such an object in its parameters, is refused at every
+       position of every history over every universe and table - and no module is ever stored for it.  (A generator
+       that HANDS ON the module of a nested call is not: that module is named by the call that created it.) *)
+Theorem C09_unnameable_call_always_refused U T c k o fuel ks st os i :
+  mk_key U c = Ok k -> existsb has_obj (snd k) = true -> b_ret (prog_of U T k) = RFresh o ->
+  hist_f key_eqb (prog_of U T) (gen_name_of U) (has_params_of U) (suffix_opt_of U) StoreNamed fuel ks = (st, os) ->
+  nth_error ks i = Some k -> (exists e, nth_error os i = Some (Raise e)) /\ ~ In k (map fst (done st)).
+Proof.
+  intros M H R Hh Ki. pose proof (unnameable_doomed U T c k o M H R) as D. split.
+  - exact (doomed_refused key key_eqb key_eqb_eq _ _ _ _ fuel ks st os i k Hh D Ki).
+  - destruct (histf_inv key key_eqb key_eqb_eq _ _ _ _ _ _ _ _ Hh) as [I _].
+    exact (doomed_not_done key key_eqb _ _ _ _ st k I D).
+Qed.
+Print Assumptions C09_unnameable_call_always_refused.
+
+(* 34. PARTIAL (premises as in 11 / 12: md5 collision-free and hex, json.dumps injective on validated values): theorem 12
+       for histories with refused calls - no two different generated modules of a design share a name *)
+Theorem C09_design_names_unique_after_refusals_partial
+  (md5hex : string -> string) (json : list field -> list pval -> string)
+  (md5_collision_free : forall a b, md5hex a = md5hex b -> a = b)
+  (md5_hex : forall a, has_char "="%char (md5hex a) = false)
+  (json_injective : forall fs vs ws, typed_all (map f_dtype fs) vs = true -> typed_all (map f_dtype fs) ws = true ->
+                                     json fs vs = json fs ws -> vs = ws)
+  Un Tn fuel ks st os m1 m2 g1 g2 :
+  hist_fh md5hex json Un Tn fuel ks = (st, os) ->
+  creators_ok Un Tn (map m_creator (heap st)) ->
+  nth_error (heap st) m1 = Some g1 -> nth_error (heap st) m2 = Some g2 -> m_name g1 = m_name g2 -> m1 = m2.
+Proof.
+  exact (design_names_unique_f md5hex json md5_collision_free md5_hex json_injective Un Tn fuel ks st os m1 m2 g1 g2).
+Qed.
+Print Assumptions C09_design_names_unique_after_refusals_partial.
+
+(* ---------- witnesses ---------- *)
+Definition ex_FU : list gen :=
+  [ {| g_name := "G"; g_fields := [ {| f_name := "width"; f_dtype := DInt; f_default := None |};
+                                     {| f_name := "fn"; f_dtype := DObj; f_default := None |} ] |};
+    {| g_name := "H"; g_fields := [ {| f_name := "w"; f_dtype := DInt; f_default := None |} ] |} ].
+Definition ex_g1 : key := (0%nat, [VInt 1; VObj 0]).
+Definition ex_g2 : key := (0%nat, [VInt 2; VObj 1]).
+Definition ex_h1 : key := (1%nat, [VInt 1]).
+Definition names_of (st : state key) : list string := map m_name (heap st).
+Definition ex_hist pol := hist_f key_eqb (prog_of ex_FU []) (gen_name_of ex_FU) (has_params_of ex_FU) (suffix_opt_of ex_FU) pol 10
+                                 [ex_g1; ex_h1; ex_g1; ex_g2; ex_g2; ex_h1].
+
+(* the code: G(width=1, fn=f) is refused, and refused again; H(w=1) in between is answered, and answered alike later;
+   the two bodies of the refused calls ran at every attempt, H's once *)
+Example C09_ex_refused_again :
+  snd (ex_hist StoreNamed) = [Raise EName; Ret 0; Raise EName; Raise EName; Raise EName; Ret 0]%nat /\
+  names_of (fst (ex_hist StoreNamed)) = ["H(w=1)"] /\
+  nruns key_eqb ex_g1 (fst (ex_hist StoreNamed)) = 2%nat /\ nruns key_eqb ex_h1 (fst (ex_hist StoreNamed)) = 1%nat /\
+  pending (fst (ex_hist StoreNamed)) = [] /\ stack (fst (ex_hist StoreNamed)) = [].
+Proof. vm_compute. repeat split. Qed.
+
+(* 31. REFUTED for the seeded changes C09r2-A / C08r2-A (the result is stored before it is named): the repeated call
+       RETURNS a module - named `G`, without parameter suffix - where the first one raised; a second value gives a second
+       module under the SAME name; the bodies are not run again.  One call is thus refused or answered depending on the
+       history, and two different generated modules share one export name. *)
+Theorem C09_store_before_name_refuted :
+  exists Un ks k1 k2, k1 <> k2 /\
+    let h := hist_f key_eqb (prog_of Un []) (gen_name_of Un) (has_params_of Un) (suffix_opt_of Un) StoreFirst 10 ks in
+    nth_error ks 0 = Some k1 /\ nth_error ks 2 = Some k1 /\ nth_error ks 3 = Some k2 /\ nth_error ks 4 = Some k2 /\
+    nth_error (snd h) 0 = Some (Raise EName) /\ nth_error (snd h) 2 = Some (Ret 0%nat) /\
+    nth_error (snd h) 3 = Some (Raise EName) /\ nth_error (snd h) 4 = Some (Ret 2%nat) /\
+    nth_error (names_of (fst h)) 0 = Some "G" /\ nth_error (names_of (fst h)) 2 = Some "G" /\
+    nruns key_eqb k1 (fst h) = 1%nat.
+Proof.
+  exists ex_FU, [ex_g1; ex_h1; ex_g1; ex_g2; ex_g2; ex_h1], ex_g1, ex_g2. split; [discriminate|].
+  vm_compute. repeat split.
+Qed.
+Print Assumptions C09_store_before_name_refuted.
+
+(* hand-on through an un-nameable call, a refused nested call, and a cycle: Outer(fn) returns the module of H(w=1) and
+   is answered (that module has its name); Wrap(w=1) calls G(1, fn) and is refused with it, every time; Cyc is Bad *)
+Definition ex_FU2 : list gen := ex_FU ++
+  [ {| g_name := "Outer"; g_fields := [ {| f_name := "fn"; f_dtype := DObj; f_default := None |} ] |};
+    {| g_name := "Wrap"; g_fields := [ {| f_name := "w"; f_dtype := DInt; f_default := None |} ] |};
+    {| g_name := "Cyc"; g_fields := [ {| f_name := "w"; f_dtype := DInt; f_default := None |} ] |} ].
+Definition ex_FT2 : list entry :=
+  [ {| e_gen := 2; e_args := [Some (VObj 0)]; e_calls := [(1%nat, [Some (VInt 1)])]; e_ret := RPass 0 |};
+    {| e_gen := 3; e_args := [Some (VInt 1)]; e_calls := [(1%nat, [Some (VInt 1)]); (0%nat, [Some (VInt 1); Some (VObj 0)])]; e_ret := RFresh None |};
+    {| e_gen := 4; e_args := [Some (VInt 1)]; e_calls := [(4%nat, [Some (VInt 2)])]; e_ret := RFresh None |};
+    {| e_gen := 4; e_args := [Some (VInt 2)]; e_calls := [(4%nat, [Some (VInt 1)])]; e_ret := RFresh None |} ].
+Example C09_ex_nesting :
+  let h := hist_f key_eqb (prog_of ex_FU2 ex_FT2) (gen_name_of ex_FU2) (has_params_of ex_FU2) (suffix_opt_of ex_FU2) StoreNamed 10
+             [(2%nat, [VObj 0]); (3%nat, [VInt 1]); (3%nat, [VInt 1]); (4%nat, [VInt 1]); (4%nat, [VInt 2]); ex_h1; (2%nat, [VObj 0])] in
+  snd h = [Ret 0; Raise EName; Raise EName; Raise ECycle; Raise ECycle; Ret 0; Ret 0]%nat /\ names_of (fst h) = ["H(w=1)"].
+Proof. vm_compute. split; reflexivity. Qed.
+
+Example C09_ex_bad_cycle : Bad (prog_of ex_FU2 ex_FT2) (has_params_of ex_FU2) (suffix_opt_of ex_FU2) (4%nat, [VInt 1]).
+Proof.
+  apply B_cycle. apply CP_step with (b := (4%nat, [VInt 2])); [|apply CP_one]; unfold Calls; vm_compute; left; reflexivity.
+Qed.
+
+Example C09_ex_unnameable_doomed : Doomed (prog_of ex_FU []) (has_params_of ex_FU) (suffix_opt_of ex_FU) ex_g1.
+Proof. eapply (unnameable_doomed ex_FU [] (0%nat, [Some (VInt 1); Some (VObj 0)])); reflexivity. Qed.
+
+(* nested param-classes and optional fields: an object anywhere in the parameters *)
+Example C09_ex_unnameable_nested :
+  let fs := [ {| f_name := "n"; f_dtype := DRec [DOpt DObj; DInt]; f_default := None |}; {| f_name := "o"; f_dtype := DOpt DObj; f_default := Some VNone |} ] in
+  unique_name_f fs [VRec [VNone; VInt 1]; VNone] = Ok Hashed /\
+  unique_name_f fs [VRec [VObj 3; VInt 1]; VNone] = Error EName /\ unique_name_f fs [VRec [VNone; VInt 1]; VObj 0] = Error EName /\
+  norm_args fs [Some (VRec [VObj 3; VInt 1]); None] = Ok [VRec [VObj 3; VInt 1]; VNone].
+Proof. repeat split; vm_compute; reflexivity. Qed.
